@@ -315,6 +315,35 @@ fn slice_matrix<B: vm_memory::bitmap::BitmapSlice>(s: &VolatileSlice<B>, cname: 
         };
     }
     zst_cells!(copies);
+    // empty buffers are empty wherever their (never dereferenced) pointer points: at the start of
+    // the guest slice, inside it, at its end
+    if s.len() > 0 {
+        for (pn, at) in [("at-slice-start", 0usize), ("inside-slice", s.len() / 2), ("at-slice-end", s.len())] {
+            let g = s.ptr_guard();
+            // SAFETY: zero-length slices; the pointer is non-null and only carried around.
+            let p = unsafe { (g.as_ptr() as *mut u8).add(at) };
+            drop(g);
+            if p.is_null() {
+                continue;
+            }
+            cell(&format!("slice/{}/copy_to+copy_from-empty-buf-{}/u8", cname, pn), true, frame, dirty, || {
+                let e8: &mut [u8] = unsafe { std::slice::from_raw_parts_mut(p, 0) };
+                let a = s.copy_to::<u8>(e8);
+                s.copy_from::<u8>(e8);
+                let w = s.write(e8, 0).map_err(|e| format!("write Err({:?})", e))?;
+                let r = s.read(e8, 0).map_err(|e| format!("read Err({:?})", e))?;
+                if a == 0 && w == 0 && r == 0 { Ok(()) } else { Err("nonzero count".into()) }
+            });
+            if (p as usize) % 4 == 0 {
+                cell(&format!("slice/{}/copy_to+copy_from-empty-buf-{}/u32", cname, pn), true, frame, dirty, || {
+                    let e32: &mut [u32] = unsafe { std::slice::from_raw_parts_mut(p as *mut u32, 0) };
+                    let a = s.copy_to::<u32>(e32);
+                    s.copy_from::<u32>(e32);
+                    if a == 0 { Ok(()) } else { Err("nonzero count".into()) }
+                });
+            }
+        }
+    }
     cell(&format!("slice/{}/copy_to-empty-buf/u8", cname), true, frame, dirty, || if s.copy_to::<u8>(&mut []) == 0 { Ok(()) } else { Err("nonzero count".into()) });
     cell(&format!("slice/{}/copy_to-empty-buf/u32", cname), true, frame, dirty, || if s.copy_to::<u32>(&mut []) == 0 { Ok(()) } else { Err("nonzero count".into()) });
     cell(&format!("slice/{}/copy_from-empty-buf/u8", cname), true, frame, dirty, || {
